@@ -319,7 +319,7 @@ Qed.
 Theorem load_spec rows aliases : wf_file rows aliases = true ->
   exists m, load true rows aliases = Some m /\
     (forall g, dget (upper g) m = if known rows aliases g then Some (defs rows aliases g) else None) /\
-    (forall f a, In (f, a) aliases -> dget (upper a) m = dget (upper f) m).
+    (forall f a, In (f, a) aliases -> dget (upper a) m = dget (upper f) m /\ known rows aliases f = true).
 Proof.
   unfold wf_file. rewrite andb_true_iff. intros [Hr Ha].
   pose proof (load_rows_get rows Hr) as Inv0.
@@ -331,7 +331,21 @@ Proof.
   destruct (alias_fold rows aliases _ _ _ Inv Ha) as (m & names' & Hload & (I1 & I2 & I3)).
   exists m. split; [exact Hload|]. split.
   - intros g. rewrite I1. unfold lookup_spec. cbn [app]. rewrite known_gknown, defs_gdefs. reflexivity.
-  - intros f a Hin. apply (I3 f a). exact Hin.
+  - intros f a Hin. destruct (I3 f a Hin) as (_ & Hf & Heq). split; [exact Heq|].
+    rewrite known_gknown. unfold target. apply (I2 (upper f) Hf).
+Qed.
+
+(* S resolves a name that is not an alias to itself *)
+Lemma resolve_not_alias ra G : (forall f a, In (f, a) ra -> upper a <> G) -> resolve ra G = G.
+Proof.
+  induction ra as [|[f a] ra IH]; intros H; cbn [resolve]; [reflexivity|].
+  assert (upper a <> G) as Hne by (apply (H f a); left; reflexivity).
+  apply str_eqb_neq in Hne. rewrite Hne. apply IH. intros f' a' Hin. apply (H f' a'). right. exact Hin.
+Qed.
+
+Lemma target_not_alias aliases g : (forall f a, In (f, a) aliases -> upper a <> upper g) -> target aliases g = upper g.
+Proof.
+  intros H. unfold target. apply resolve_not_alias. intros f a Hin. apply (H f a). apply in_rev. exact Hin.
 Qed.
 
 (* ------------------------------------------------------------------ the case of the names in the file does not matter *)
